@@ -51,10 +51,16 @@ class TapeDist(ciw.dists.Distribution):
         self.calls = log.samples.setdefault(key, [])
         self.rng = random.Random(tape["seed"]) if "seed" in tape else None
         self.vals = tape.get("vals")
+        self.adopted = False
 
     def __deepcopy__(self, memo):
-        # Simulation deep-copies arrival/service/batch distributions; position and log stay shared
-        return self
+        # Simulation deep-copies arrival/service/batch distributions.  The simulation under test adopts this very
+        # object (position and log stay with the harness); any further Simulation built from the same Network
+        # (the 'spawn' fault) gets an inert clone that draws from its own PRNG and logs nothing.
+        if not self.adopted:
+            self.adopted = True
+            return self
+        return InertDist(self.tape)
 
     def __repr__(self):
         return "TapeDist%r" % (self.key,)
@@ -94,6 +100,17 @@ class TapeDist(ciw.dists.Distribution):
         self.calls.append((self.i, t, getattr(ind, "id_number", None), v, log.seq, log.step))
         self.i += 1
         return v
+
+
+class InertDist(ciw.dists.Distribution):
+    """What a second Simulation built from the same Network gets: valid samples, no log, no shared state."""
+
+    def __init__(self, tape):
+        self.rng = random.Random(12345)
+        self.batch = tape.get("fam") == "int" or (tape.get("vals") and all(isinstance(v, int) for v in tape["vals"]))
+
+    def sample(self, t=None, ind=None):
+        return 1 if self.batch else 0.5 + self.rng.random()
 
 
 class DrawTap:
